@@ -41,7 +41,7 @@ verdicts = {}
 rp = os.path.join(V, "seeded", "RESULTS.md")
 if os.path.exists(rp):
     for l in open(rp):
-        m = re.match(r"\|\s*(C\d+-m\d+)\s*\|\s*(C\d+)\s*\|\s*(\w+)\s*\|\s*([A-Z-]+[^|]*)\|\s*([^|]*)\|", l)
+        m = re.match(r"\|\s*(C\d+-(?:w\d+)?m\d+)\s*\|\s*(C\d+)\s*\|\s*(\w+)\s*\|\s*([A-Z-]+[^|]*)\|\s*([^|]*)\|", l)
         if m:
             kinds = m.group(5).strip().split(" ")[0]
             verdicts[(m.group(1), m.group(3))] = (m.group(4).strip(), kinds)
